@@ -219,8 +219,58 @@ def _c02(dump_path, fname, tier):
             if q.status == "sat":
                 out["witnesses"].append(witness(fa, case, r, q.model))
                 boundary_witnesses(fa, case, r, tp, out, t0)
+        pattern_witnesses(fa, case, tp, out)
     out["secs"] = round(time.time() - t0, 2)
     return out
+
+
+def _input_vars(case):
+    """The scalar input variables (z3 constants) of a case, in parameter order."""
+    seen, out = set(), []
+
+    def walk(v):
+        k = v[0]
+        if k == "int":
+            e = v[1]
+            if not is_int(e) and z3.is_const(e) and e.get_id() not in seen:
+                seen.add(e.get_id())
+                out.append(e)
+        elif k in ("struct", "array"):
+            for x in v[1]:
+                walk(x)
+        elif k == "enum":
+            for x in v[3].values():
+                walk(x)
+        elif k == "box":
+            walk(v[1])
+    for v in case.vals:
+        walk(v)
+    return [v for v in out if not str(v).startswith("imp_")]
+
+
+def pattern_witnesses(fa, case, tp, out):
+    """Concolic leg of C02 for the runner's own hint arithmetic: for every zero / non-zero pattern
+    of the scalar input cells (limbs of wide integers in particular) the solver picks a feasible
+    returning path and operands, and the witness is executed by the real runner, which must
+    complete. Degenerate limb patterns are where the honest hint implementations have their
+    special cases; the symbolic side only knows a relation for them."""
+    vs = _input_vars(case)
+    if not 2 <= len(vs) <= 5:
+        return
+    import itertools
+    t0 = time.time()
+    budget = 30 if tp["max_depth"] <= 5 else 120
+    paths = [r for r in case.results if r.ok][:12]
+    for mask in itertools.product((0, 1), repeat=len(vs)):
+        if not any(mask) or time.time() - t0 > budget:
+            continue
+        goal = [v == 0 if m else v != 0 for v, m in zip(vs, mask)]
+        for r in paths:
+            s = z3.Solver()
+            s.add(*r.path.exprs(), *goal)
+            if checked(s, 3000) == z3.sat:
+                out["witnesses"].append(witness(fa, case, r, s.model(), "pattern"))
+                break
 
 
 c02_worker = wrap(_c02)
